@@ -39,6 +39,9 @@ inline uint8_t model_start_lg(uint8_t lg_k, int rf) {
   return static_cast<uint8_t>(tgt <= mn ? mn : (rf == 0 ? tgt : ((tgt - mn) % rf) + mn));
 }
 
+// string keys with an embedded NUL are legal keys (seed C13_25): switch them on for every C13 unit
+static const bool c13_nul_keys_on = (vf::str_nul_enabled() = true);
+
 // two-argument update: key overload chosen by the kind of the generated value
 template<typename S, typename V> void apply_update2(S& sk, const Val& v, V&& val) {
   switch (v.kind) {
@@ -299,6 +302,7 @@ template<typename T> struct Prog {
         T::do_update(*L.sk, v, uv, r, L.m.cfg);
       }
       apply_update(*L.th, v);
+      if (v.kind == V_STR && v.s.find('\0') != std::string::npos) count("string_key_with_embedded_nul");
       if (!v.ignored()) {
         const uint64_t h = v.ref_hash(L.m.seed).h1 >> 1;
         L.m.nonempty = true;
